@@ -43,6 +43,19 @@ type FileRec struct {
 type Dir struct {
 	Files map[string]*FileRec
 	Clock int64
+	// Unit is the length of one tick of the logical clock in real file time (0 = one second).
+	// Orders and equalities of modification times are the same under every unit; only the real
+	// distances differ (down to fractions of a second).
+	Unit time.Duration `json:",omitempty"`
+}
+
+// At converts a logical time to the file time the code under test sees.
+func (d *Dir) At(m int64) time.Time {
+	u := d.Unit
+	if u == 0 {
+		u = time.Second
+	}
+	return Epoch.Add(time.Duration(m) * u)
 }
 
 func NewDir() *Dir { return &Dir{Files: map[string]*FileRec{}} }
@@ -64,7 +77,7 @@ func (d *Dir) Touch(path string) {
 }
 
 func (d *Dir) Clone() *Dir {
-	o := &Dir{Files: make(map[string]*FileRec, len(d.Files)), Clock: d.Clock}
+	o := &Dir{Files: make(map[string]*FileRec, len(d.Files)), Clock: d.Clock, Unit: d.Unit}
 	for k, v := range d.Files {
 		o.Files[k] = &FileRec{Data: append([]byte(nil), v.Data...), MTime: v.MTime}
 	}
@@ -133,7 +146,7 @@ type MemFS struct {
 func (m *MemFS) mapfs() fstest.MapFS {
 	out := fstest.MapFS{}
 	for k, v := range m.D.Files {
-		out[k] = &fstest.MapFile{Data: v.Data, Mode: 0644, ModTime: Epoch.Add(time.Duration(v.MTime) * time.Second)}
+		out[k] = &fstest.MapFile{Data: v.Data, Mode: 0644, ModTime: m.D.At(v.MTime)}
 	}
 	return out
 }
@@ -279,7 +292,7 @@ func RunFaultWith(d *Dir, strat int, f Fault, setup func(db.Database) error) Run
 func RunMapFs(d *Dir, strat int) RunResult {
 	m := fstest.MapFS{".": &fstest.MapFile{Mode: 0777 | fs.ModeDir}}
 	for k, v := range d.Files {
-		m[k] = &fstest.MapFile{Data: v.Data, Mode: 0644, ModTime: Epoch.Add(time.Duration(v.MTime) * time.Second)}
+		m[k] = &fstest.MapFile{Data: v.Data, Mode: 0644, ModTime: d.At(v.MTime)}
 	}
 	before := map[string]*fstest.MapFile{}
 	for k, v := range m {
@@ -340,7 +353,7 @@ func (d *Dir) Materialise(root string) error {
 		if err := os.WriteFile(p, v.Data, 0644); err != nil {
 			return err
 		}
-		t := Epoch.Add(time.Duration(v.MTime) * time.Second)
+		t := d.At(v.MTime)
 		if err := os.Chtimes(p, t, t); err != nil {
 			return err
 		}
@@ -367,7 +380,7 @@ func (d *Dir) Absorb(root string) ([]string, error) {
 			return err
 		}
 		old, ok := d.Files[rel]
-		if ok && bytes.Equal(old.Data, data) && info.ModTime().Equal(Epoch.Add(time.Duration(old.MTime)*time.Second)) {
+		if ok && bytes.Equal(old.Data, data) && info.ModTime().Equal(d.At(old.MTime)) {
 			return nil
 		}
 		changed = append(changed, rel)
@@ -435,6 +448,55 @@ func RunNativeFault(d *Dir, strat int, fault Fault) (RunResult, error) {
 	res := RunFS(ff, strat)
 	res.Writes = ff.Writes
 	_, err = d.Absorb(root)
+	d.Tick(10)
+	return res, err
+}
+
+// RunNativeLinks is RunNative with the named files turned into symbolic links to files kept outside
+// the directory (as when configurations are shared between trees). The links are resolved again
+// before the directory is read back, so that the Dir keeps describing plain files.
+func RunNativeLinks(d *Dir, strat int, links []string) (RunResult, error) {
+	d.Tick(10)
+	root, err := os.MkdirTemp("", "gopki-verif-")
+	if err != nil {
+		return RunResult{}, err
+	}
+	store := root + "-store"
+	defer os.RemoveAll(root)
+	defer os.RemoveAll(store)
+	if err := d.Materialise(root); err != nil {
+		return RunResult{}, err
+	}
+	if err := os.MkdirAll(store, 0755); err != nil {
+		return RunResult{}, err
+	}
+	type moved struct{ link, real string }
+	var mv []moved
+	for i, l := range links {
+		if d.Files[l] == nil {
+			continue
+		}
+		lp := filepath.Join(root, filepath.FromSlash(l))
+		rp := filepath.Join(store, fmt.Sprintf("f%d", i))
+		if err := os.Rename(lp, rp); err != nil {
+			return RunResult{}, err
+		}
+		if err := os.Symlink(rp, lp); err != nil {
+			return RunResult{}, err
+		}
+		mv = append(mv, moved{lp, rp})
+	}
+	res := RunFS(filesystem.NewNativeFs(root), strat)
+	for _, m := range mv {
+		if fi, err := os.Lstat(m.link); err == nil && fi.Mode()&os.ModeSymlink != 0 {
+			os.Remove(m.link)
+			if err := os.Rename(m.real, m.link); err != nil {
+				return RunResult{}, err
+			}
+		}
+	}
+	ch, err := d.Absorb(root)
+	res.Writes = ch
 	d.Tick(10)
 	return res, err
 }
